@@ -26,6 +26,7 @@ func runC08(c *fw.Ctx) {
 		L(spec.NilV(), L(I(1))), L(spec.BoolV(true), O("a", L(I(1)))), L(spec.FloatV(1.5), L()),
 	}
 	c.Cases("pinned", len(pins), true, func(i int, r *rng.R) { c08Case(c, r, pins[i], muts) })
+	historyCases(c, "history", 400, 40000, probeClone)
 	c.Cases("trees", c.N(1000, 400000), false, func(i int, r *rng.R) {
 		t := spec.GenTree(r, spec.Opts{MaxDepth: r.Range(1, 6), MaxWidth: r.Range(1, 5), SafeKeys: r.Bool(), ScalarBias: r.Range(3, 7), Wide: true})
 		c08Case(c, r, t, muts)
